@@ -849,9 +849,11 @@ func exactMatchNaive(caseSensitive bool, normalize bool, forward bool, boundaryC
 				bonus = bonusAt(text, index_)
 			}
 			if boundaryCheck {
-				ok = bonus >= bonusBoundary
-				if ok && pidx_ == 0 {
-					ok = index_ == 0 || charClassOf(text.Get(index_-1)) <= charDelimiter
+				// The bonus of the first character is known only when we are at it,
+				// which is the last step when scanning backward
+				if pidx_ == 0 {
+					ok = bonus >= bonusBoundary &&
+						(index_ == 0 || charClassOf(text.Get(index_-1)) <= charDelimiter)
 				}
 				if ok && pidx_ == len(pattern)-1 {
 					ok = index_ == lenRunes-1 || charClassOf(text.Get(index_+1)) <= charDelimiter
